@@ -674,6 +674,10 @@ class RZILTransformer(Transformer):
         else:
             raise NotImplementedError(f"Assign type {assign.assign_type} not handled.")
         self.add_op(assign.src)
+        if assign.src.value_type != assign.dest.value_type:
+            # The operation was done on the promoted types. The result
+            # is converted back to the type of the assigned variable (C11 - 6.5.16.2).
+            assign.set_src(self.init_a_cast(assign.dest.value_type, assign.src))
 
     def assignment_expr(self, items):
         self.ext.set_token_meta_data("assignment_expr")
